@@ -23,6 +23,7 @@ CLASSES = {
     'B': BEGIN, 'S': SIGH, 'E': SIGE,
     'A': '-----BEGIN PGP PUBLIC KEY BLOCK-----\n',       # other armor-like line
     '_': '\n',                                            # blank
+    'W': ' \t\n',                                         # blank: whitespace only
     'H': 'Hash: SHA512\n',                                # armor header / base64 text (not an entry)
     'V': 'DATA f 0\n',                                    # valid entry
     'D': '- DATA g 0\n',                                  # dash-escaped entry
@@ -139,9 +140,11 @@ def c04(rng, tier):
         for _ in range(3000):
             seqs.append(tuple(rng.choice(keys) for _ in range(rng.randint(4, maxlen))))
         # well-formed skeletons with variations
-        for body in itertools.product('VDX_J', repeat=2):
+        for body in itertools.product('VDX_WJ', repeat=2):
             seqs.append(tuple('BH_') + body + tuple('SHE'))
+            seqs.append(tuple('BHW') + body + tuple('SHE'))
             seqs.append(tuple('_BH_') + body + tuple('SHE_'))
+            seqs.append(tuple('V') + tuple('BH_') + body + tuple('SHE'))
     else:
         for L in range(0, 6):
             seqs.extend(itertools.product(keys, repeat=L))
@@ -170,14 +173,20 @@ def c04(rng, tier):
                              'key': 'fsm:' + ''.join(seq)[:12], 'props': ['C04', 'C09', 'C18'] if got[0] == 'exc' else ['C04', 'C09']})
             if m.openpgp_signed:
                 viol.append({'what': 'C04 signed flag set without verification for %s' % ''.join(seq), 'key': 'flag', 'props': ['C04', 'C05']})
-            # with verification: exactly BEGIN..END handed over, flag only after
-            if want[0] == 'ok' and 'B' in seq:
+            # with verification: same verdict and entries; exactly BEGIN..END handed over, flag only after
+            if 'B' in seq:
                 env = FakeEnv()
                 got2, m2 = gemato_load(text, True, env)
-                b = flines.index(BEGIN)
-                e = flines.index(SIGE)
-                if got2[0] != 'ok' or env.seen != [''.join(flines[b:e + 1])] or m2.openpgp_signed is not True:
-                    viol.append({'what': 'C04 verification input for %s: %r' % (''.join(seq), env.seen), 'key': 'verify-text', 'props': ['C04', 'C05']})
+                if got2[0] != want[0] or (want[0] == 'ok' and [list(x) for x in want[1]] != [list(x) for x in got2[1]]):
+                    viol.append({'what': 'C04 with verification, line classes %s: expected %r, got %r' % (''.join(seq), want, got2),
+                                 'key': 'fsm-verify:' + ''.join(seq)[:12], 'props': ['C04', 'C09']})
+                if want[0] == 'ok':
+                    b = flines.index(BEGIN)
+                    e = flines.index(SIGE)
+                    if env.seen != [''.join(flines[b:e + 1])] or m2.openpgp_signed is not True:
+                        viol.append({'what': 'C04 verification input for %s: %r' % (''.join(seq), env.seen), 'key': 'verify-text', 'props': ['C04', 'C05']})
+                elif m2.openpgp_signed:
+                    viol.append({'what': 'C04 signed flag set although loading failed for %s' % ''.join(seq), 'key': 'flag-on-failure', 'props': ['C04', 'C05']})
             if len(viol) > 30:
                 break
     return viol, n, len(distinct), samples
